@@ -101,6 +101,9 @@ class Run:
             seen.add((o.key(), o.status))
             dedup.append(o)
         self.obligations = dedup
+        if os.environ.get("OP2_LIST"):
+            for o in self.obligations:
+                print("  OBLIGATION %s %s %s" % (o.rule, o.instance, o.status))
         for o in self.obligations:
             if o.status == "violated":
                 if (self.prop, o.key()) in open_known:
